@@ -176,9 +176,12 @@ class DebugInfo:
                 # and anything between the end of the last child
                 # statement and the end of the block is part of the
                 # "end statement" of the block.
-                last_child = children[-1]
+                # (a child may contain other children, e.g. the branch
+                # of a single-line IF, so take the furthest end rather
+                # than the end of the child that starts last)
+                last_child_end = max(c.end_offset for c in children)
                 add_node_record(block.end_stmt,
-                                last_child.end_offset,
+                                last_child_end,
                                 end_offset)
             else:
                 # there should have been an empty block marker inside.
